@@ -59,18 +59,39 @@ def run(cmd, cwd=None, env=None, timeout=None, mem_kb=None, log=None):
 
 
 def repo_fingerprint():
-    """Hash of the working-tree sources the checks depend on (for the evidence file)."""
+    """Content hash of the working-tree sources the checks depend on.  Used in the evidence files and to key
+    the cargo target directories: build artefacts of one state of /repo are never reused for another state
+    (cargo's own freshness test is mtime based, which is not reliable across restores / checkouts)."""
     h = hashlib.sha256()
     for root in ("ascent", "ascent_base", "ascent_macro", "byods/ascent-byods-rels"):
-        base = os.path.join(REPO, root, "src")
-        for d, _, fs in sorted(os.walk(base)):
+        base = os.path.join(REPO, root)
+        for d, dirs, fs in sorted(os.walk(base)):
+            dirs[:] = sorted(x for x in dirs if x not in ("target", "examples", "benches"))
             for f in sorted(fs):
-                if f.endswith(".rs"):
+                if f.endswith(".rs") or f == "Cargo.toml":
                     p = os.path.join(d, f)
                     h.update(p.encode())
                     with open(p, "rb") as fh:
                         h.update(fh.read())
     return h.hexdigest()[:16]
+
+
+def keyed_target_dir(prefix, keep=3):
+    """.cache/<prefix>-<repo fingerprint>; older directories of the same prefix are pruned (disk)"""
+    import shutil
+    fp = repo_fingerprint()
+    d = os.path.join(CACHE, "%s-%s" % (prefix, fp))
+    os.makedirs(CACHE, exist_ok=True)
+    try:
+        olds = sorted([x for x in os.listdir(CACHE) if x.startswith(prefix + "-") and len(x) == len(prefix) + 17 and x != os.path.basename(d)],
+                      key=lambda x: os.path.getmtime(os.path.join(CACHE, x)))
+        for x in olds[:-(keep - 1)] if keep > 1 else olds:
+            shutil.rmtree(os.path.join(CACHE, x), ignore_errors=True)
+    except OSError:
+        pass
+    os.makedirs(d, exist_ok=True)
+    os.utime(d, None)
+    return d
 
 
 def load_known_findings():
